@@ -450,3 +450,13 @@ def shrink(case):
                 yield c
         if case['stop'] == 'tEnd':
             yield dict(case, stop='none')
+
+
+_gen_plain = gen
+
+
+def gen(rng, tier, idx):
+    case = _gen_plain(rng, tier, idx)
+    if case['kind'] in ('norms', 'collector', 'plot'):
+        cm.maybe_bystanders(rng, case['sched'], case['P'])
+    return case
